@@ -95,6 +95,19 @@ func VerifSubState(s *LocalSubscriber) (disconnected, ready bool, liveQueue []st
 // VerifBoltLastSeq exposes the in-memory lastSeq field.
 func VerifBoltLastSeq(t *BoltTransport) uint64 { return t.lastSeq }
 
+// VerifBoltBucketSequence: the bucket's own sequence counter (what NextSequence continues from).
+func VerifBoltBucketSequence(t *BoltTransport) (seq uint64) {
+	_ = t.db.View(func(tx *bolt.Tx) error {
+		if b := tx.Bucket([]byte(t.bucketName)); b != nil {
+			seq = b.Sequence()
+		}
+
+		return nil
+	})
+
+	return
+}
+
 // VerifOptions exposes the effective options of a hub.
 type VerifOptions struct {
 	Anonymous, Subscriptions, HasPublisherKey, HasSubscriberKey bool
